@@ -89,9 +89,11 @@ func (obj *Ratio) Equal(other Object) (eq bool) {
 		f, exact := (*big.Rat)(obj).Float64()
 		eq = exact && f == float64(to)
 	case *LongFloat:
-		f, exact := (*big.Rat)(obj).Float64()
-		f2, accuracy := (*big.Float)(to).Float64()
-		eq = exact && accuracy == big.Exact && f == f2
+		// Compare the exact values, a long-float can have more than double
+		// precision.
+		if r, _ := (*big.Float)(to).Rat(nil); r != nil {
+			eq = r.Cmp((*big.Rat)(obj)) == 0
+		}
 	case *Ratio:
 		eq = (*big.Rat)(obj).Cmp((*big.Rat)(to)) == 0
 	case *Bignum:
